@@ -506,6 +506,12 @@ class MarkdownNormalizer(Renderer):
         children_content = self.render_children(element)
         self._in_heading = False
         self._current_inline_text = ""
+        # A trailing run of `#` would be read back as the optional closing sequence of the
+        # ATX heading and disappear: escape it.
+        closing_run = re.search(r"(?:^|[ \t])(#+)[ \t]*$", children_content)
+        if closing_run:
+            pos = closing_run.start(1)
+            children_content = children_content[:pos] + "\\" + children_content[pos:]
         # If heading ends with hard break, don't add extra newline
         if children_content.endswith("\\"):
             result = f"{self._prefix}{'#' * element.level} {children_content}\n"
